@@ -1314,31 +1314,12 @@ def table_interp(base):
     from . import absint as A
 
     class TableInterp(base):
-        def _closures_of_const(self, path, val):
-            """A closure coerced to `fn` is rendered as the FnOnce::call_once shim; the driver gives its identity as "closure"
-            when it can.  Otherwise the i-th shim of a constant is the constant's i-th closure — assumed only when every shim
-            can be paired that way (as many shims as closures defined in the constant's initialiser)."""
-            shims = []
-
-            def w(v):
-                if isinstance(v, dict):
-                    if "fn" in v and str(v["fn"]).endswith("FnOnce::call_once") and "closure" not in v:
-                        shims.append(id(v))
-                    for k in ("list", "tuple"):
-                        for e in v.get(k, []) if isinstance(v.get(k), list) else []:
-                            w(e)
-            w(val)
-            own = sorted((k for k in self.facts.F if path and k.startswith(path + "::{closure#") and k.endswith("}") and "::" not in k[len(path) + 2:]),
-                         key=lambda k: int(re.search(r"#(\d+)\}$", k).group(1)))
-            return dict(zip(shims, own)) if shims and len(shims) == len(own) else {}
-
-        def const_value(self, val, shim_of=None):
-            shim_of = shim_of or {}
+        def const_value(self, val):
             if isinstance(val, dict):
                 if "list" in val:
-                    return ("tuple", [self.const_value(e, shim_of) for e in val["list"]], "array")
+                    return ("tuple", [self.const_value(e) for e in val["list"]], "array")
                 if "tuple" in val:
-                    return A.V_tuple([self.const_value(e, shim_of) for e in val["tuple"]])
+                    return A.V_tuple([self.const_value(e) for e in val["tuple"]])
                 if "variant" in val and "adt" in val:
                     return A.V_enum(val["adt"], self.vidx(val["adt"], val["variant"]), val["variant"], [])
                 if "str" in val:
@@ -1346,9 +1327,9 @@ def table_interp(base):
                 if "int" in val:
                     return A.V_int(val["int"])
                 if "fn" in val:
-                    clo = val.get("closure") or shim_of.get(id(val))
-                    if clo:
-                        return ("closure", clo, [])
+                    # a closure coerced to `fn` is rendered as the FnOnce::call_once shim together with the closure's identity
+                    if val.get("closure"):
+                        return ("closure", val["closure"], [])
                     if str(val["fn"]).endswith("FnOnce::call_once"):
                         raise A.LeavesFragment("fn pointer made from a closure whose identity is not rendered")
                     return ("zst", val["fn"])
@@ -1357,7 +1338,7 @@ def table_interp(base):
         def operand(self, frame, op):
             val = op.get("val") if op.get("k") == "const" else None
             if isinstance(val, dict) and ("list" in val or "tuple" in val or "variant" in val):
-                return self.const_value(val, self._closures_of_const(op.get("path"), val))
+                return self.const_value(val)
             return base.operand(self, frame, op)
 
         def place(self, frame, pl):
